@@ -136,6 +136,9 @@ def run(c, chk):
     chk.analysed = {'dfa_states': dfa.nstates, 'lexer_rules': dfa.num_rules,
                     'action_paths': sum(len(v) for v in lex.actions.values())}
 
+    # ---- R3.7: a copying action appends the matched bytes, not one more ------------------------------------
+    copy_counts(c, chk, lex, K)
+
     # ---- R3.6 totality -------------------------------------------------------
     for scname in sorted(dfa.sc, key=lambda n: dfa.sc[n]):
         fr = dfa.firing_rules(scname)
@@ -416,6 +419,71 @@ def run(c, chk):
     chk.floor('R3.x string-token rules', len(str_rules), 4)
     chk.floor('R3.1 segments evaluated', n1, 10000)
     chk.floor('R3.2 segments evaluated', n2, 10000)
+
+
+def copy_counts(c, chk, lex, K):
+    """R3.7: an action that copies the matched text byte by byte and counts with the match length copies exactly that many
+    bytes.  On every explored path the tests on yyleng pin the length down (the loop was left after n rounds); the number
+    of text bytes appended on that path must be that length - one more is the terminating NUL of yytext, which cuts the
+    string value short at that point"""
+    chk.rule('R3.7', 'an action that copies the matched text under a count derived from the match length appends exactly that many bytes (never the terminator of the text)')
+    YYLENG = ('g', '@cfg_yyleng')
+    n = 0
+    for r in sorted(lex.actions):
+        bad = None
+        for ap in lex.actions[r]:
+            if ap.path.end not in ('stop', 'ret'):
+                continue
+            cons = [(cn, t) for cn, t, _ in ap.path.assume if cn[0] == 'icmp' and sym.mentions(cn, lambda v: v[0] == 'ld' and v[1] == YYLENG)]
+            if not cons:
+                continue
+
+            def val(v, L):
+                if sym.is_const(v):
+                    return v[1]
+                if v[0] == 'ld' and v[1] == YYLENG:
+                    return L
+                if v[0] == 'bin' and v[1] in ('sext', 'zext', 'trunc'):
+                    return val(v[2], L)
+                if v[0] == 'bin' and len(v) == 4 and v[1] in ('add', 'sub'):
+                    a, b = val(v[2], L), val(v[3], L)
+                    return None if a is None or b is None else (a + b if v[1] == 'add' else a - b)
+                return None
+            sols = []
+            for L in range(0, 12):
+                ok = True
+                for cn, t in cons:
+                    a, b = val(cn[2], L), val(cn[3], L)
+                    if a is None or b is None:
+                        ok = None
+                        break
+                    r_ = {'eq': a == b, 'ne': a != b, 'slt': a < b, 'sle': a <= b, 'sgt': a > b, 'sge': a >= b, 'ult': a < b, 'ule': a <= b, 'ugt': a > b, 'uge': a >= b}.get(cn[1])
+                    if r_ is None:
+                        ok = None
+                        break
+                    if r_ != t:
+                        ok = False
+                        break
+                if ok is None:
+                    sols = None
+                    break
+                if ok:
+                    sols.append(L)
+            if not sols or len(sols) != 1:
+                continue
+            n += 1
+            copied = [x for x in ap.of('qputc') if sym.mentions(x[1], lambda v: v == ('g', '@cfg_yytext'))]
+            if len(copied) > sols[0]:
+                bad = bad or (ap, sols[0], len(copied))
+        if bad is not None:
+            ap, L, q = bad
+            chk.fail('R3.7', 'copies-terminator:%s' % lex.dfa.rule_text.get(r), 'src/lexer.l:%d' % lex.dfa.rule_line.get(r, 0),
+                     '%s: on a path whose tests fix the match length at %d the action appends %d bytes of the text: the last one is the NUL behind the match - everything '
+                     'appended to the string after this run is cut off' % (lex.rule_name(r), L, q))
+    if n:
+        chk.ok('R3.7', '%d counted copy paths' % n, 'bytes appended <= match length', nontrivial=False)
+    else:
+        chk.ok('R3.7', 'copying actions', 'none counts with the match length (they stop at the terminator of the text)', nontrivial=False)
 
 
 def subst_action_ok(lex, r, scname):
